@@ -48,9 +48,16 @@ CusumLo1(n, Z) == TruncDiv(TruncDiv(-n, Z) + 1, 4)
 CusumLo2(n, Z) == TruncDiv(TruncDiv(-n, Z) - 3, 4)
 CusumHi(n, Z)  == TruncDiv(TruncDiv(n, Z) - 1, 4)
 PhiAt(c, Z, sq) == RPhi(RDiv(RMul(c, Z), sq))
+\* Terms whose arguments lie beyond 50 standard deviations are below 1e-500 each (there are at most n of them), so the
+\* series is evaluated for |4i| <= 50 sqrt(n)/Z + 8 only; for walks with a tiny excursion (alternating bits: Z = 1) this
+\* keeps the evaluation at O(sqrt n) terms instead of O(n).
+CusumCut(n, Z) == (RCeil(RDiv(RMul(50, RSqrt(n)), Z)) \div 4) + 2
 CusumPQ(n, Z) ==
    LET sq == RSqrt(n)
-       rng(lo, hi) == IF hi < lo THEN <<>> ELSE [t \in 1..(hi - lo + 1) |-> lo + t - 1]
+       cut == CusumCut(n, Z)
+       clampLo(v) == IF v < -cut THEN -cut ELSE v
+       clampHi(v) == IF v > cut THEN cut ELSE v
+       rng(lo0, hi0) == LET lo == clampLo(lo0)  hi == clampHi(hi0) IN IF hi < lo THEN <<>> ELSE [t \in 1..(hi - lo + 1) |-> lo + t - 1]
        s1 == FoldLeft(LAMBDA a, i : RAdd(a, RSub(PhiAt(4 * i + 1, Z, sq), PhiAt(4 * i - 1, Z, sq))), "0", rng(CusumLo1(n, Z), CusumHi(n, Z)))
        s2 == FoldLeft(LAMBDA a, i : RAdd(a, RSub(PhiAt(4 * i + 3, Z, sq), PhiAt(4 * i + 1, Z, sq))), "0", rng(CusumLo2(n, Z), CusumHi(n, Z)))
        p == RAdd(RSub(1, s1), s2)
